@@ -111,8 +111,8 @@ def useToks (specs : List String) : UseSt → List String → Option UseSt
       | [b, hex] =>
         match fromHex hex with
         | some body =>
-          if b == "b0" ∨ b == "b1" then
-            match s.rx.writeBody ops body (b == "b1") with
+          if isBodyTok b then
+            match s.rx.writeBody ops body (bodyTokEOM b) with
             | some (rx', ev) => useToks specs (useEvents { s with rx := rx' } ev) ts
             | none => some { s with outs := s.outs ++ ["panic"] }
           else none
